@@ -1,6 +1,7 @@
 import SuccinctlyVerif.Spec.YamlScalar
 import SuccinctlyVerif.Model.YamlEmit
 import SuccinctlyVerif.Model.YamlAnchor
+import SuccinctlyVerif.Model.YamlBlock
 import Driver.Util
 namespace SV.Drv.C15
 open SV SV.Drv SV.Yaml SV.Yaml.Emit
@@ -61,6 +62,33 @@ partial def parseNodes (cs : List Char) : Anchor.Forest × List Char :=
     let (rest, r) := parseNodes r
     (.cons label mark payload children rest, r)
   | _ => (.nil, cs)
+
+instance : Inhabited Block.Tree := ⟨.nil⟩
+
+/-- Block-tree encoding `K<hexkey>S<hexval>;` / `K<hexkey>M[…]` (see the harness). -/
+partial def parseBlock (cs : List Char) : Block.Tree × List Char :=
+  match cs with
+  | 'K' :: r =>
+    let hx := r.takeWhile (fun c => c.isDigit || ('a' ≤ c && c ≤ 'f'))
+    let r := r.dropWhile (fun c => c.isDigit || ('a' ≤ c && c ≤ 'f'))
+    let key := (chars? (if hx.isEmpty then "-" else String.ofList hx)).getD []
+    match r with
+    | 'S' :: r' =>
+      let hv := r'.takeWhile (fun c => c != ';')
+      let r'' := (r'.dropWhile (fun c => c != ';')).drop 1
+      let v := (chars? (if hv.isEmpty then "-" else String.ofList hv)).getD []
+      let (rest, r3) := parseBlock r''
+      (.cons key (some v) .nil rest, r3)
+    | 'M' :: '[' :: r' =>
+      let (ch, r2) := parseBlock r'
+      let (rest, r3) := parseBlock (r2.drop 1)
+      (.cons key none ch rest, r3)
+    | _ => (.nil, r)
+  | _ => (.nil, cs)
+
+def lineText (l : Block.Line) : List Char :=
+  List.replicate l.indent ' ' ++ l.key ++ [':'] ++
+    (match l.value with | some v => ' ' :: v | none => [])
 
 def evStr : Anchor.Ev → String
   | .decl n _ => s!"&{n}"
@@ -133,6 +161,11 @@ def exec (a : List String) : String :=
     -- `alias_sound`: sound whenever no mark lies below an alias node; otherwise computed
     let ok := Anchor.aliasOpaque f || Anchor.sound eqv evs
     s!"{toks} {if ok then "SOUND" else "UNSOUND"}"
+  | ["blk", step, enc] =>
+    let tr := (parseBlock enc.toList).1
+    let ls := Block.emitLines rev (parseNat step) 0 tr
+    let text := (ls.map lineText).intersperse ['\n'] |>.flatten
+    s!"{hexOfChars text} LOAD-OK"
   | ["sloop", _doc, _ind] => "LOOP-OK"
   | ["cli", _doc, _prog, _ind] => "LOOP-OK"
   | _ => "BAD-OP"
